@@ -121,7 +121,8 @@ def execute(case: dict) -> dict:
                 e["obs"] = outcome(cm)
             rec["events"].append(e)
         return rec
-    ds = W.build(w)
+    from .. import viafile
+    ds = viafile.hold_ds(w, W.build(w))
     conv = W.bind(w, ds)
     tw = CD.tlc_world(w)
     if w["conv"] == "ugrid":
@@ -174,3 +175,7 @@ def extra_evidence(tier, cases, records, verdict) -> dict:
     return {"exhaustive_groups": verdict.get("groups", {}),
             "exhaustive_note": "exhaustive refers to the blur / smear primitive universes listed in exhaustive_groups; "
                                "make_clip_mask scenarios are generated, not exhaustive"}
+
+
+from .. import viafile as _viafile  # noqa: E402
+execute = _viafile.closing(execute)
